@@ -11,7 +11,7 @@ import shutil
 import subprocess
 import sys
 
-SRC = '/tmp/seed/out'
+SRC = "/tmp/seed/out"
 DST = '/verif/seeded'
 PY = '/venv/bin/python'
 
